@@ -193,6 +193,15 @@ pub fn root_dir() -> String {
     format!("{}/p{:010}", std::env::var("VERIF_ROOT_BASE").unwrap_or_else(|_| "/dev/shm/verif-sim".into()), std::process::id())
 }
 
+/// Replace the per-process run directory by a fixed token (event logs are compared across processes).
+pub fn canon_paths(s: &str) -> String {
+    if s.contains("/p0") {
+        s.replace(&root_dir(), "<root>")
+    } else {
+        s.to_string()
+    }
+}
+
 pub fn make_config(cfg: &EngineCfg) -> Config {
     let mut c = Config::default();
     c.storage.data_dir = std::path::PathBuf::from(format!("{}/data", root_dir()));
@@ -262,7 +271,8 @@ fn fail(oracle: &str, step: i64, detail: String) -> Failure {
 
 impl<'a> Exec<'a> {
     fn logln(&mut self, s: &str) {
-        self.log.extend_from_slice(s.as_bytes());
+        // the run directory carries the pid: error texts that quote a path must not change the log hash
+        self.log.extend_from_slice(crate::dur::canon_paths(s).as_bytes());
         self.log.push(b'\n');
     }
 
